@@ -67,21 +67,34 @@ class Sched:
             e["SCHED_PB"] = ",".join("%d@%d" % (k, c) for k, c in pb) or "0@0"
         if env:
             e.update(env)
-        try:
-            pre = None
-            if nofile:
-                import resource
-                def pre():
-                    resource.setrlimit(resource.RLIMIT_NOFILE, (nofile, nofile))
-            p = subprocess.run([self.exe] + args, env=e, stdout=subprocess.PIPE, stderr=subprocess.PIPE, timeout=timeout, stdin=subprocess.DEVNULL,
-                               preexec_fn=pre)
-            code, errtxt = p.returncode, p.stderr.decode("latin-1", "replace")
-        except subprocess.TimeoutExpired:
-            code, errtxt = -999, "wall-clock timeout"
-        try:
-            lines = open(trf, errors="replace").read().splitlines()
-        except OSError:
-            lines = []
+        pre = None
+        if nofile:
+            import resource
+
+            def pre():
+                resource.setrlimit(resource.RLIMIT_NOFILE, (nofile, nofile))
+        lines = []
+        for attempt in (1, 2):
+            try:
+                p = subprocess.run([self.exe] + args, env=e, stdout=subprocess.PIPE, stderr=subprocess.PIPE, timeout=timeout * attempt,
+                                   stdin=subprocess.DEVNULL, preexec_fn=pre)
+                code, errtxt = p.returncode, p.stderr.decode("latin-1", "replace")
+            except subprocess.TimeoutExpired:
+                code, errtxt = -999, "wall-clock timeout"
+            try:
+                lines = open(trf, errors="replace").read().splitlines()
+            except OSError:
+                lines = []
+            if code != -999:
+                break
+            # a wall-clock timeout on a loaded machine is not a verdict: if the trace shows that the program ended, take
+            # that; otherwise run the same thing once more with twice the time before calling it a hang
+            ended = [l for l in lines if " EXIT " in l or l.endswith(" DEADLOCK") or l.endswith(" STEPLIMIT")]
+            if ended:
+                f = ended[-1].split(" ")
+                code = int(f[3]) if f[1] == "EXIT" else (97 if f[1] == "DEADLOCK" else 98)
+                errtxt = "(process outlived its wall-clock limit after the run had ended)"
+                break
         return Run(args, hosts, seed, spur, sigs, code, errtxt, lines)
 
 
